@@ -7,13 +7,15 @@
   left, a receiver parked in `recv` holds its wake-up token (its park returns, it drains and gets Disconnected).
 -/
 import MayVerif.Props.C06
+import MayVerif.Model.Chan.MpmcPinned
+import MayVerif.Model.Chan.SpscPinned
 namespace MayVerif.Chan.Mpsc
 open MayVerif.Chan
 
 /-- **Disconnect wakes the receiver**: all Senders dropped ∧ quiescent ⇒ a parked receiver holds its token. -/
-theorem chan_disconnect_observed (n : Nat) (hn : 0 < n) (sched : List (Tid × Env))
+theorem chan_disconnect_observed (n : Nat) (hn : 0 < n) (sched : List (Nat × Env))
     (hq : Quiescent (run (init n) sched)) (hnos : ∀ u, u < n → (run (init n) sched).sh.tx u = 0)
-    (t : Tid) (b : Bid) (tm : Bool) (hp : (run (init n) sched).pcs t = .r4park b tm) :
+    (t : Nat) (b : Nat) (tm : Bool) (hp : (run (init n) sched).pcs t = .r4park b tm) :
     (run (init n) sched).sh.tok b = true := by
   have h := inv_run _ sched (inv_init n hn)
   have hn' : (run (init n) sched).n = n := by simpa [init] using run_n (init n) sched
@@ -37,7 +39,7 @@ theorem chan_disconnect_observed (n : Nat) (hn : 0 < n) (sched : List (Tid × En
 
 /-- **Drain first, then Disconnected**: a receive reports Disconnected only when the queue is empty and no Sender
     exists (so nothing can be pushed any more): everything that was ever sent Ok has been received or dropped. -/
-theorem chan_disconnected_only_when_drained (n : Nat) (hn : 0 < n) (sched : List (Tid × Env)) (t : Tid) (a : Api)
+theorem chan_disconnected_only_when_drained (n : Nat) (hn : 0 < n) (sched : List (Nat × Env)) (t : Nat) (a : Api)
     (hr : (run (init n) sched).pcs t = .done a .disc) :
     (run (init n) sched).sh.q = [] ∧ (run (init n) sched).sh.channels = 0 ∧
       (run (init n) sched).sh.pushed = (run (init n) sched).sh.hist.map (·.1) := by
@@ -50,7 +52,7 @@ theorem chan_disconnected_only_when_drained (n : Nat) (hn : 0 < n) (sched : List
 
 /-- once no Sender is left, none can appear and nothing can be pushed: `channels = 0` is stable under every step
     (so a later receive still finds the channel disconnected) -/
-theorem chan_disconnect_stable (s s' : St) (t : Tid) (e : Env) (h : Inv s) (hc : s.sh.channels = 0)
+theorem chan_disconnect_stable (s s' : St) (t : Nat) (e : Env) (h : Inv s) (hc : s.sh.channels = 0)
     (hs : step s t e = some s') : s'.sh.channels = 0 ∧ s'.sh.pushed = s.sh.pushed := by
   obtain ⟨n, sh, pcs⟩ := s
   simp only [step] at hs
@@ -74,7 +76,7 @@ theorem chan_disconnect_stable (s s' : St) (t : Tid) (e : Env) (h : Inv s) (hc :
 
 /-- **send after the last Receiver is gone fails and returns the value**: once the Receiver's drop has finished
     (`rx = none`), the `port_dropped` check of every send fails the send, giving back its value. -/
-theorem chan_send_after_port_drop_fails (n : Nat) (hn : 0 < n) (sched : List (Tid × Env)) (t : Tid) (v : Nat) (e : Env) (s' : St)
+theorem chan_send_after_port_drop_fails (n : Nat) (hn : 0 < n) (sched : List (Nat × Env)) (t : Nat) (v : Nat) (e : Env) (s' : St)
     (hrx : (run (init n) sched).sh.rx = none)
     (ht : (run (init n) sched).pcs t = .s0load v)
     (hs : step (run (init n) sched) t e = some s') : s'.pcs t = .done .send (.refused v) ∧ s'.sh.pushed = (run (init n) sched).sh.pushed := by
@@ -92,7 +94,7 @@ theorem chan_send_after_port_drop_fails (n : Nat) (hn : 0 < n) (sched : List (Ti
 
 /-- **Leftovers are dropped exactly once**: when every handle has been dropped and nobody is in the middle of an
     operation, the queue is empty and every message ever sent Ok was either received or dropped – exactly once. -/
-theorem chan_leftover_dropped_once (n : Nat) (hn : 0 < n) (sched : List (Tid × Env))
+theorem chan_leftover_dropped_once (n : Nat) (hn : 0 < n) (sched : List (Nat × Env))
     (hq : Quiescent (run (init n) sched)) (hnos : ∀ u, u < n → (run (init n) sched).sh.tx u = 0)
     (hrx : (run (init n) sched).sh.rx = none) :
     (run (init n) sched).sh.q = [] ∧
@@ -119,7 +121,7 @@ theorem chan_leftover_dropped_once (n : Nat) (hn : 0 < n) (sched : List (Tid × 
 
 /-- the three `panic!/assert!` sites of the channel are never reached: `drop_chan` never sees a zero count, and
     `Drop for InnerQueue` finds `channels == 0` and an empty `to_wake` -/
-theorem chan_asserts_hold (n : Nat) (hn : 0 < n) (sched : List (Tid × Env)) (t : Tid) (ht : t < n) :
+theorem chan_asserts_hold (n : Nat) (hn : 0 < n) (sched : List (Nat × Env)) (t : Nat) (ht : t < n) :
     ((run (init n) sched).pcs t = .x0fsub → 0 < (run (init n) sched).sh.channels) ∧
     (∀ a, (run (init n) sched).pcs t = .q0load a → (run (init n) sched).sh.channels = 0) ∧
     (∀ a, (run (init n) sched).pcs t = .q1take a → (run (init n) sched).sh.toWake = none) := by
@@ -167,3 +169,328 @@ example : let s := run (init 2) [(0, .giveRx 1), (0, .send 9), (0, .go), (1, .dr
     s.pcs 0 = .idle ∧ s.sh.q = [] ∧ dropped s.sh.hist = [⟨9, 0⟩] ∧ s.sh.arc = 0 := by decide
 
 end MayVerif.Chan.Mpsc
+
+/-! ## mpmc (`Model/Chan/Mpmc.lean` = the code with the F4 fix; `Model/Chan/MpmcPinned.lean` = the pinned behaviour,
+    used only for the negation witnesses of defect F4 at the end) -/
+namespace MayVerif.Chan.Mpmc
+open MayVerif.Chan
+
+/-- **Disconnect is observed, no receiver hangs** (quiescence form): once every Sender has been dropped, a state in
+    which nobody is in the middle of an operation and some receiver is parked in `recv` is never a hang – some parked
+    receiver holds its wake-up token. (That receiver finds the queue empty, reports Disconnected and passes the
+    disconnect token on, `gpost (.discRet _)`, so the next parked receiver is woken in turn: for 1..k receivers.) -/
+theorem chan_disconnect_observed (n : Nat) (hn : 0 < n) (sched : List (Nat × Env))
+    (hq : Quiescent (run (init n) sched)) (hnos : ∀ u, u < n → (run (init n) sched).sh.tx u = 0)
+    (t : Nat) (b : Nat) (a : Api) (hp : (run (init n) sched).pcs t = .w1park b a) :
+    ∃ u b' a', u < n ∧ (run (init n) sched).pcs u = .w1park b' a' ∧ (run (init n) sched).sh.tok b' = true := by
+  have h := inv_run _ sched (inv_init n hn)
+  have hn' : (run (init n) sched).n = n := by simpa [init] using run_n (init n) sched
+  have htp0 : (run (init n) sched).sh.txPorts = 0 := by
+    rw [h.tp]; exact sumOf_zero_of _ _ (fun u hu => hnos u (by omega))
+  have hdp : (run (init n) sched).sh.dposted = true := by
+    have hdz := h.dz
+    have c := quiet_counts _ hq atDropPost rfl (fun _ _ => rfl)
+    rw [htp0, c] at hdz
+    cases hd : (run (init n) sched).sh.dposted with
+    | true => rfl
+    | false => rw [hd] at hdz; simp at hdz
+  obtain ⟨u, b', a', hu, h1, h2⟩ := quiet_someone_woken _ h hq (Or.inr hdp) t b a hp
+  exact ⟨u, b', a', by omega, h1, h2⟩
+
+/-- **Drain first, then Disconnected**: a receive reports Disconnected only when the queue is empty and no Sender
+    exists: everything that was ever sent Ok has been received or dropped. (With the fix a receiver reports
+    Disconnected only while it holds the disconnect token and has found the queue empty.) -/
+theorem chan_disconnected_only_when_drained (n : Nat) (hn : 0 < n) (sched : List (Nat × Env)) (t : Nat) (a : Api)
+    (hr : (run (init n) sched).pcs t = .done a .disc) :
+    (run (init n) sched).sh.q = [] ∧ (run (init n) sched).sh.txPorts = 0 ∧
+      (run (init n) sched).sh.pushed = (run (init n) sched).sh.hist.map (·.1) := by
+  have h := inv_run _ sched (inv_init n hn)
+  have ⟨h1, h2⟩ := h.se t (by simp [hr, sawEmpty])
+  have hdz := h.dz
+  refine ⟨h1, ?_, ?_⟩
+  · rw [h2] at hdz
+    apply Classical.byContradiction; intro hne
+    simp [hne] at hdz
+  · have := h.data
+    rw [h1] at this
+    simpa using this
+
+/-- **send after the last Receiver is gone fails and returns the value**: when no Receiver handle is left, the
+    `rx_ports` check of every send fails the send, giving back its value; nothing is pushed. -/
+theorem chan_send_after_port_drop_fails (n : Nat) (hn : 0 < n) (sched : List (Nat × Env)) (t : Nat) (v : Nat) (e : Env) (s' : St)
+    (hrx : ∀ u, u < n → (run (init n) sched).sh.rx u = 0)
+    (ht : (run (init n) sched).pcs t = .m0load v)
+    (hs : step (run (init n) sched) t e = some s') : s'.pcs t = .done .send (.refused v) ∧ s'.sh.pushed = (run (init n) sched).sh.pushed := by
+  have h := inv_run _ sched (inv_init n hn)
+  have hn' : (run (init n) sched).n = n := by simpa [init] using run_n (init n) sched
+  have hrp0 : (run (init n) sched).sh.rxPorts = 0 := by
+    rw [h.rp]; exact sumOf_zero_of _ _ (fun u hu => hrx u (by omega))
+  generalize run (init n) sched = s at *
+  obtain ⟨m, sh, pcs⟩ := s
+  simp only at ht hrp0
+  simp only [step, ht, tstep, hrp0, if_true] at hs
+  split at hs
+  · simp only [Option.some.injEq] at hs
+    subst hs
+    simp [upd]
+  · contradiction
+
+/-- **Leftovers are dropped exactly once**: when every handle has been dropped and nobody is in the middle of an
+    operation, the queue is empty and every message ever sent Ok was either received or dropped – exactly once. -/
+theorem chan_leftover_dropped_once (n : Nat) (hn : 0 < n) (sched : List (Nat × Env))
+    (hq : Quiescent (run (init n) sched)) (hnos : ∀ u, u < n → (run (init n) sched).sh.tx u = 0)
+    (hnor : ∀ u, u < n → (run (init n) sched).sh.rx u = 0) :
+    (run (init n) sched).sh.q = [] ∧
+    (received (run (init n) sched).sh.hist ++ dropped (run (init n) sched).sh.hist).Perm (run (init n) sched).sh.pushed := by
+  have h := inv_run _ sched (inv_init n hn)
+  have hn' : (run (init n) sched).n = n := by simpa [init] using run_n (init n) sched
+  have hex := chan_exactly_once n hn sched
+  generalize run (init n) sched = s at *
+  have hDT := quiet_counts s hq dropTail rfl (fun _ _ => rfl)
+  have hZ := quiet_counts s hq atZ rfl (fun _ _ => rfl)
+  have hsumT : sumOf s.n s.sh.tx = 0 := sumOf_zero_of _ _ (fun u hu => hnos u (by omega))
+  have hsumR : sumOf s.n s.sh.rx = 0 := sumOf_zero_of _ _ (fun u hu => hnor u (by omega))
+  have harc : s.sh.arc = 0 := by rw [h.arcI, hsumT, hsumR, hDT]
+  have hq0 : s.sh.q = [] := by
+    rcases h.left harc with h1 | h1
+    · exact h1
+    · omega
+  refine ⟨hq0, ?_⟩
+  rw [hq0] at hex
+  simpa using hex
+
+/-- none of the `panic! / unreachable! / expect / assert!` sites of the channel is reached: `recv` / `try_recv` that
+    hold a permit and find the queue empty do see `tx_ports == 0`; the drops never see a zero count; `post` with a
+    negative count finds a waiter to pop; `Drop for InnerQueue` finds both counts at zero -/
+theorem chan_asserts_hold (n : Nat) (hn : 0 < n) (sched : List (Nat × Env)) (t : Nat) (ht : t < n) :
+    (∀ a, (run (init n) sched).pcs t = .y2load a → (run (init n) sched).sh.txPorts = 0) ∧
+    ((run (init n) sched).pcs t = .x0fsub → 0 < (run (init n) sched).sh.txPorts) ∧
+    ((run (init n) sched).pcs t = .xr0fsub → 0 < (run (init n) sched).sh.rxPorts) ∧
+    ((run (init n) sched).sh.cnt < 0 → (run (init n) sched).sh.wq ≠ []) ∧
+    (∀ a, (run (init n) sched).pcs t = .z0load a → (run (init n) sched).sh.txPorts = 0) ∧
+    (∀ a, (run (init n) sched).pcs t = .z1load a → (run (init n) sched).sh.rxPorts = 0) := by
+  have h := inv_run _ sched (inv_init n hn)
+  have hn' : (run (init n) sched).n = n := by simpa [init] using run_n (init n) sched
+  generalize run (init n) sched = s at *
+  have hleT := le_sumOf s.n s.sh.tx t (by omega)
+  have hleR := le_sumOf s.n s.sh.rx t (by omega)
+  have harcI := h.arcI; have htp := h.tp; have hrp := h.rp
+  refine ⟨fun a hp => ?_, fun hp => ?_, fun hp => ?_, fun hc hw => ?_, fun a hp => ?_, fun a hp => ?_⟩
+  · have ⟨_, h2⟩ := h.se t (by simp [hp, sawEmpty])
+    have hdz := h.dz
+    rw [h2] at hdz
+    apply Classical.byContradiction; intro hne
+    simp [hne] at hdz
+  · have := h.txU t (by simp [hp, usesTx]); omega
+  · have := h.rxU t (by simp [hp, usesRx]); omega
+  · have := h.g1 hc; rw [hw] at this; simp at this; omega
+  · have := h.qz t (by simp [hp, atZ]); omega
+  · have := h.qz t (by simp [hp, atZ]); omega
+
+-- non-vacuity: two receivers (actors 1, 2) are parked, the last Sender is dropped: its single post wakes actor 1 …
+example : let s := run (init 3) [(0, .cloneRx), (0, .go), (0, .go), (0, .giveRx 1), (0, .giveRx 2),
+    (1, .recv), (1, .go), (1, .go), (2, .recv), (2, .go), (2, .go),
+    (0, .dropTx), (0, .go), (0, .go), (0, .go), (0, .go)]
+    s.pcs 0 = .idle ∧ s.pcs 1 = .w1park 0 .recv ∧ s.pcs 2 = .w1park 1 .recv ∧ s.sh.tx 0 = 0 ∧ s.sh.tok 0 = true ∧ s.sh.tok 1 = false := by decide
+-- … which finds the queue empty, passes the disconnect token on (waking actor 2) and reports Disconnected; then actor 2 does the same
+example : let s := run (init 3) [(0, .cloneRx), (0, .go), (0, .go), (0, .giveRx 1), (0, .giveRx 2),
+    (1, .recv), (1, .go), (1, .go), (2, .recv), (2, .go), (2, .go),
+    (0, .dropTx), (0, .go), (0, .go), (0, .go), (0, .go),
+    (1, .go), (1, .go), (1, .go), (1, .go), (1, .go), (2, .go), (2, .go), (2, .go), (2, .go)]
+    s.pcs 1 = .done .recv .disc ∧ s.pcs 2 = .done .recv .disc ∧ s.sh.cnt = 1 := by decide
+-- a receiver that comes later takes the token, reports Disconnected and puts the token back
+example : let s := run (init 2) [(0, .giveRx 1), (0, .dropTx), (0, .go), (0, .go), (0, .go),
+    (1, .tryRecv), (1, .go), (1, .go), (1, .go), (1, .go)]
+    s.pcs 1 = .done .tryRecv .disc ∧ s.sh.cnt = 1 := by decide
+-- send after the last Receiver's drop fails
+example : (run (init 2) [(0, .giveRx 1), (1, .dropRx), (1, .go), (1, .go), (0, .send 9), (0, .go)]).pcs 0 = .done .send (.refused 9) := by decide
+
+end MayVerif.Chan.Mpmc
+
+/-! ### Defect F4 (pinned tree): the negation witnesses, on `Model/Chan/MpmcPinned.lean` -/
+namespace MayVerif.Chan.MpmcPinned
+open MayVerif.Chan MayVerif.Chan.Mpmc
+
+/-- the schedule of `f4_two_receivers_hang`: actors 1 and 2 hold a Receiver each and are both past `try_recv`
+    (Empty) when actor 0 drops the last Sender; `drop_tx` leaves ONE permit; actor 1 takes it and reports
+    Disconnected; actor 2 registers and parks for ever -/
+def f4Sched : List (Nat × Env) :=
+  [(0, .cloneRx), (0, .go), (0, .go), (0, .giveRx 1), (0, .giveRx 2),
+   (1, .recv), (1, .go), (1, .go),                    -- try_wait fails, tx_ports = 1: Empty
+   (2, .recv), (2, .go), (2, .go),
+   (0, .dropTx), (0, .go), (0, .go), (0, .go), (0, .go), (0, .go), (0, .go),   -- fetch_sub = 1; get_value = 0: post; get_value = 1: done
+   (1, .go), (1, .go), (1, .go), (1, .go),             -- sem.wait takes the permit; pop = None; tx_ports = 0: Disconnected
+   (2, .go)]                                           -- sem.wait: no permit: registers and parks
+
+/-- **F4 (C07 fails on the pinned tree)**: a reachable deadlock in which a receiver is parked in an untimed `recv`
+    without a wake-up token although every Sender has been dropped. -/
+theorem f4_two_receivers_hang : ∃ sched, hung (runP (initP 3) sched) = true := ⟨f4Sched, by decide⟩
+
+/-- the same hang with ONE receiver in the window when values are queued at the time of the last drop (then
+    `drop_tx` posts nothing at all): actor 1 is past `try_recv`, actor 0 sends and drops, actor 2 receives the value -/
+theorem f4_no_token_when_values_queued : ∃ sched, hung (runP (initP 3) sched) = true :=
+  ⟨[(0, .cloneRx), (0, .go), (0, .go), (0, .giveRx 1), (0, .giveRx 2),
+    (1, .recv), (1, .go), (1, .go),
+    (0, .send 5), (0, .go), (0, .go), (0, .go), (0, .go),
+    (0, .dropTx), (0, .go), (0, .go), (0, .go),         -- get_value = 1: no post
+    (2, .recv), (2, .go), (2, .go), (2, .go),           -- takes the permit and the value
+    (1, .go)], by decide⟩
+
+/-- second half of F4: `try_recv` (and `recv` through it) reports Disconnected although a value that was sent Ok
+    before the disconnect is still queued: the failed `try_wait` is older than the `tx_ports` load -/
+theorem f4_disconnected_before_drained :
+    ∃ sched t a, (runP (initP 2) sched).pcs t = .base (.done a .disc) ∧ (runP (initP 2) sched).sh.q ≠ [] :=
+  ⟨[(0, .giveRx 1), (1, .tryRecv), (1, .go),              -- try_wait fails
+    (0, .send 5), (0, .go), (0, .go), (0, .go), (0, .go),
+    (0, .dropTx), (0, .go), (0, .go), (0, .go),
+    (1, .go)], 1, .tryRecv, by decide⟩
+
+/-- the fixed model on the schedule of `f4_two_receivers_hang` (restricted to the steps the fixed code has): both
+    receivers come back with Disconnected -/
+example : let s := Mpmc.run (Mpmc.init 3) [(0, .cloneRx), (0, .go), (0, .go), (0, .giveRx 1), (0, .giveRx 2),
+    (1, .recv), (1, .go), (2, .recv), (2, .go),
+    (0, .dropTx), (0, .go), (0, .go), (0, .go),
+    (1, .go), (1, .go), (1, .go), (1, .go), (2, .go), (2, .go), (2, .go), (2, .go)]
+    s.pcs 1 = .done .recv .disc ∧ s.pcs 2 = .done .recv .disc := by decide
+
+end MayVerif.Chan.MpmcPinned
+
+/-! ## spsc (`Model/Chan/Spsc.lean` = the code with the F3 fix; `Model/Chan/SpscPinned.lean` = the pinned `subscribe`,
+    used only for the negation witness of defect F3 at the end) -/
+namespace MayVerif.Chan.Spsc
+open MayVerif.Chan
+
+/-- **Disconnect wakes the receiver**: the Sender dropped ∧ quiescent ⇒ a receiver parked (thread) or suspended
+    (coroutine) in `recv` has been unparked / scheduled – also when the drop fell between the receiver's failed
+    `try_recv` and its registration (thread: re-check after `wait_co.store`; coroutine: the re-check of `channels`
+    that F3.patch adds to `subscribe`). -/
+theorem chan_disconnect_observed (n : Nat) (co : Nat → Bool) (hn : 0 < n) (sched : List (Nat × Env))
+    (hq : Quiescent (run (init n co) sched)) (hnos : (run (init n co) sched).sh.tx = none)
+    (t : Nat) (hp : Waiting (run (init n co) sched) t) : (run (init n co) sched).sh.tok t = true := by
+  have h := inv_run _ sched (inv_init n co hn)
+  generalize run (init n co) sched = s at *
+  have hX1 := quiet_counts s hq atX1 rfl (fun _ => rfl) (fun _ => rfl)
+  have hkt := hq.2
+  have hch : s.sh.channels = 0 := by rw [h.chan, hnos]; rfl
+  have key : ∀ b, waitsOn (s.pcs t) = some b → willClear (s.pcs t) = false → cntOf s.n (unparking b) s.pcs = 0 → s.sh.tok t = true := by
+    intro b hw hwc hUP
+    have hrx := h.rxU t (waitsOn_usesRx _ _ hw)
+    rcases h.w1 t b hw with h1 | h1 | h1 | h1
+    · rcases h.tw b t h1 hrx with h2 | h2 | h2 | h2
+      · omega
+      · omega
+      · rw [hwc] at h2; cases h2
+      · simp [hkt, kWill] at h2
+    · exact h1
+    · omega
+    · simp [hkt, kPending] at h1
+  rcases hp with ⟨b, hp⟩ | ⟨b, hp⟩
+  · exact key b (by simp [hp, waitsOn]) (by simp [hp, willClear]) (quiet_counts s hq (unparking b) rfl (fun _ => rfl) (fun _ => rfl))
+  · exact key b (by simp [hp, waitsOn]) (by simp [hp, willClear]) (quiet_counts s hq (unparking b) rfl (fun _ => rfl) (fun _ => rfl))
+
+/-- **Drain first, then Disconnected**: a receive reports Disconnected only when the queue is empty and the Sender
+    is gone: everything that was ever sent Ok has been received or dropped. -/
+theorem chan_disconnected_only_when_drained (n : Nat) (co : Nat → Bool) (hn : 0 < n) (sched : List (Nat × Env)) (t : Nat) (a : Api)
+    (hr : (run (init n co) sched).pcs t = .done a .disc) :
+    (run (init n co) sched).sh.q = [] ∧ (run (init n co) sched).sh.channels = 0 ∧
+      (run (init n co) sched).sh.pushed = (run (init n co) sched).sh.hist.map (·.1) := by
+  have h := inv_run _ sched (inv_init n co hn)
+  have ⟨h1, h2⟩ := h.rd t (by simp [hr, retDisc])
+  refine ⟨h1, h2, ?_⟩
+  have := h.data
+  rw [h1] at this
+  simpa using this
+
+/-- **send after the Receiver is gone fails and returns the value** -/
+theorem chan_send_after_port_drop_fails (n : Nat) (co : Nat → Bool) (hn : 0 < n) (sched : List (Nat × Env)) (t : Nat) (v : Nat) (e : Env) (s' : St)
+    (hrx : (run (init n co) sched).sh.rx = none)
+    (ht : (run (init n co) sched).pcs t = .s0load v)
+    (hs : step (run (init n co) sched) t e = some s') : s'.pcs t = .done .send (.refused v) ∧ s'.sh.pushed = (run (init n co) sched).sh.pushed := by
+  have h := inv_run _ sched (inv_init n co hn)
+  have hpd := h.pdr hrx
+  generalize run (init n co) sched = s at *
+  obtain ⟨m, sh, pcs⟩ := s
+  simp only at ht hpd hrx
+  have hne : ¬ (e = Env.kern ∧ sh.rx = some t) := by rw [hrx]; simp
+  simp only [step, ht, tstep] at hs
+  split at hs
+  · split at hs
+    · contradiction
+    next sh' pc' hts =>
+      simp only [Option.some.injEq] at hs
+      subst hs
+      split at hts
+      · simp [hrx] at hts
+      · simp only [ustep, hpd, if_true, Option.some.injEq, Prod.mk.injEq] at hts
+        obtain ⟨rfl, rfl⟩ := hts
+        simp [upd]
+  · contradiction
+
+/-- **Leftovers are dropped exactly once**: when both handles have been dropped and nobody is in the middle of an
+    operation, the queue is empty and every message ever sent Ok was either received or dropped – exactly once. -/
+theorem chan_leftover_dropped_once (n : Nat) (co : Nat → Bool) (hn : 0 < n) (sched : List (Nat × Env))
+    (hq : Quiescent (run (init n co) sched)) (hnos : (run (init n co) sched).sh.tx = none)
+    (hrx : (run (init n co) sched).sh.rx = none) :
+    (run (init n co) sched).sh.q = [] ∧
+    (received (run (init n co) sched).sh.hist ++ dropped (run (init n co) sched).sh.hist).Perm (run (init n co) sched).sh.pushed := by
+  have h := inv_run _ sched (inv_init n co hn)
+  have hex := chan_exactly_once n co hn sched
+  generalize run (init n co) sched = s at *
+  have hDT := quiet_counts s hq dropTail rfl (fun _ => rfl) (fun _ => rfl)
+  have harc : s.sh.arc = 0 := by rw [h.arcI, hnos, hrx, hDT]; rfl
+  have hq0 := h.left harc
+  refine ⟨hq0, ?_⟩
+  rw [hq0] at hex
+  simpa using hex
+
+/-- a second kernel tail is never started while one is running (the guard of `y0yield` in the model is never false) -/
+theorem chan_one_kernel_tail (n : Nat) (co : Nat → Bool) (hn : 0 < n) (sched : List (Nat × Env)) (t : Nat)
+    (hp : (run (init n co) sched).pcs t = .y0yield) : (run (init n co) sched).sh.kt = .kIdle := by
+  have h := inv_run _ sched (inv_init n co hn)
+  have hrx := h.rxU t (by simp [hp, usesRx])
+  cases hk : (run (init n co) sched).sh.kt with
+  | kIdle => rfl
+  | _ => have := h.kA2 t hrx (by simp [hk, kIsIdle]); simp [hp, kActive] at this
+
+-- non-vacuity, thread receiver parked, the Sender is dropped: woken, drains, Disconnected
+example : (run (init 2 (fun _ => false)) [(0, .giveRx 1), (1, .recv), (1, .go), (1, .go), (1, .go), (1, .go), (1, .go), (1, .go),
+    (0, .dropTx), (0, .go), (0, .go), (0, .go), (0, .go), (1, .go), (1, .go), (1, .go), (1, .go)]).pcs 1 = .done .recv .disc := by decide
+-- coroutine receiver, the F3 window: the Sender is dropped between the failed try_recv and the registration; with the
+-- fix the kernel tail sees `channels == 0`, takes the coroutine back and resumes it: Disconnected
+example : let s := run (init 2 (fun t => t == 1)) [(0, .giveRx 1), (1, .recv), (1, .go), (1, .go), (1, .go),
+    (0, .dropTx), (0, .go), (0, .go), (0, .go),
+    (1, .kern), (1, .kern), (1, .kern), (1, .kern), (1, .kern), (1, .kern),
+    (1, .go), (1, .go), (1, .go), (1, .go), (1, .go)]
+    s.pcs 1 = .done .recv .disc := by decide
+-- send after the Receiver's drop fails; a value that raced the drop is dropped with the queue
+example : (run (init 2 (fun _ => false)) [(0, .giveRx 1), (1, .dropRx), (1, .go), (1, .go), (1, .go), (0, .send 9), (0, .go)]).pcs 0 = .done .send (.refused 9) := by decide
+example : let s := run (init 2 (fun _ => false)) [(0, .giveRx 1), (0, .send 9), (0, .go), (1, .dropRx), (1, .go), (1, .go), (1, .go), (0, .go), (0, .go), (0, .go),
+    (0, .dropTx), (0, .go), (0, .go), (0, .go)]
+    s.pcs 0 = .idle ∧ s.sh.q = [] ∧ dropped s.sh.hist = [⟨9, 0⟩] ∧ s.sh.arc = 0 := by decide
+
+end MayVerif.Chan.Spsc
+
+/-! ### Defect F3 (pinned tree): the negation witness, on `Model/Chan/SpscPinned.lean` -/
+namespace MayVerif.Chan.SpscPinned
+open MayVerif.Chan MayVerif.Chan.Spsc
+
+/-- the schedule of `f3_coroutine_receiver_hangs`: actor 1 is a coroutine and holds the Receiver; its `try_recv`
+    finds the queue empty and `channels == 1`; actor 0 drops the Sender (`channels.store(0)`, `wait_co.take()` finds
+    nobody); only then the kernel tail of actor 1 registers the coroutine; the queue is empty, so the pinned
+    `subscribe` ends without a look at `channels`: nobody is left to wake the coroutine -/
+def f3Sched : List (Nat × Env) :=
+  [(0, .giveRx 1),
+   (1, .recv), (1, .go), (1, .go),          -- try_recv: pop = None, channels = 1: Empty
+   (1, .go),                                 -- yield_with: the coroutine switches out
+   (0, .dropTx), (0, .go), (0, .go), (0, .go),   -- channels.store(0); wait_co.take() = None
+   (1, .kern), (1, .kern), (1, .kern)]       -- subscribe: wait_co.store(co); queue.is_empty(); wait_kernel.store(false)
+
+/-- **F3 (C07 fails on the pinned tree)**: a reachable state in which the receiver coroutine is suspended for ever
+    although the Sender has been dropped. -/
+theorem f3_coroutine_receiver_hangs : ∃ sched, hung (runP (init 2 (fun t => t == 1)) sched) = true := ⟨f3Sched, by decide⟩
+
+/-- the fixed model on the same schedule (plus the three steps the fix adds and the coroutine's own steps): Disconnected -/
+example : (Spsc.run (init 2 (fun t => t == 1)) (f3Sched ++ [(1, .kern), (1, .kern), (1, .kern),
+    (1, .go), (1, .go), (1, .go), (1, .go), (1, .go)])).pcs 1 = .done .recv .disc := by decide
+
+end MayVerif.Chan.SpscPinned
